@@ -562,3 +562,14 @@ M("C17", "jw-permute-count", HQC, "n_permute += n_non_sigma_z", "n_permute += 1"
 M("C17", "jw-qn-odd-orbital", HQC, 'qn_dict1 = {"+": [0, -1], "-": [0, 1], "Z": [0, 0]}', 'qn_dict1 = {"+": [0, 1], "-": [0, -1], "Z": [0, 0]}', ["jw-simplify"], "charges of beta-orbital ladder operators inverted")
 M("C17", "jw-string-short", HQC, 'sigma_z_list = [Op("Z", l) for l in range(j)]', 'sigma_z_list = [Op("Z", l) for l in range(j - 1)]', ["jw-simplify"], "Jordan-Wigner string misses the neighbouring orbital")
 T("C17", "twin-jw-count-form", HQC, "        n_sigma_z = elem_op.split_symbol.count(\"Z\")", "        n_sigma_z = len([s for s in elem_op.split_symbol if s == \"Z\"])", "count written as a comprehension")
+
+# ------------------------------------------------------------------------------------------------ behaviour-preserving refactorings written by independent agents (twins/<tag>/patch.diff):
+# every claimed check must stay silent on each of them
+_tw = _os.path.join(_V, "twins")
+if _os.path.isdir(_tw):
+    import json as _json
+    _claimed = [c["property_id"] for c in _json.load(open(_os.path.join(_V, "MANIFEST.json")))["checks"]]
+    for _t in sorted(_os.listdir(_tw)):
+        if _os.path.isfile(_os.path.join(_tw, _t, "patch.diff")):
+            for _p in _claimed:
+                SPECS.append({"property": _p, "kind": "twin", "id": f"refactor-{_t}-{_p}", "edits": [{"patch": f"twins/{_t}/patch.diff"}], "what": f"agent-written behaviour-preserving refactoring {_t}"})
